@@ -118,6 +118,21 @@ def Range.strClauses (r : Range Ver) : List (Clause Ver) :=
 /-- `RangeSpecifier.is_simple()`: `_simplified_form is not None` -/
 def Range.isSimple (r : Range Ver) : Bool := r.strClauses.length ≤ 1
 
+/-- the `!=X.*` detection of `UnionSpecifier._simplified_form` for `(-inf, lm) ∪ [rm, +inf)`:
+    the version `X` if the form applies -/
+def wildForm (lm rm : Ver) : Option Ver :=
+  let ls := lm.epoch :: lm.release
+  let rs' := rm.epoch :: rm.release
+  let L := Nat.max ls.length rs'.length
+  let ls := padZeros ls L
+  let rs' := padZeros rs' L
+  let fd := firstDifferentIndex ls rs'
+  if 0 < fd && fd < L && rs'.getD fd 0 == ls.getD fd 0 + 1 &&
+     ((ls.drop (fd + 1)) ++ (rs'.drop (fd + 1))).all (· == 0) &&
+     !((ls.drop (fd + 1)) ++ (rs'.drop (fd + 1))).isEmpty
+  then some { epoch := lm.epoch, release := (ls.drop 1).take fd }
+  else none
+
 /-- `UnionSpecifier._simplified_form` (union.py:30-82, after the `fix:`) -/
 def unionSimplified (rs : List (Range Ver)) (text : Option (Clause Ver)) : Option (Clause Ver) :=
   match text with
@@ -130,18 +145,7 @@ def unionSimplified (rs : List (Range Ver)) (text : Option (Clause Ver)) : Optio
         if eqv lm rm then some { op := .ne, ver := lm }
         else if !left.incMax && right.incMin then
           if lm.isPrerelease || rm.isPrerelease || lm.isPostrelease || rm.isPostrelease then none
-          else
-            let ls := lm.epoch :: lm.release
-            let rs' := rm.epoch :: rm.release
-            let L := Nat.max ls.length rs'.length
-            let ls := padZeros ls L
-            let rs' := padZeros rs' L
-            let fd := firstDifferentIndex ls rs'
-            if 0 < fd && fd < L && rs'.getD fd 0 == ls.getD fd 0 + 1 &&
-               ((ls.drop (fd + 1)) ++ (rs'.drop (fd + 1))).all (· == 0) &&
-               !((ls.drop (fd + 1)) ++ (rs'.drop (fd + 1))).isEmpty
-            then some { op := .ne, ver := { epoch := lm.epoch, release := (ls.drop 1).take fd }, wild := true }
-            else none
+          else (wildForm lm rm).map fun p => { op := .ne, ver := p, wild := true }
         else none
       | _, _, _, _ => none
     | _ => none
